@@ -185,7 +185,13 @@ package error
 //@   modifies nothing
 //@   ensures result != nil && fresh(result) && result.SigType == SigTypeBreak && result.Extra == nil
 
+// the payload of a signal is nil or a non-nil pointer
+//@ fieldinv Signal.Extra nullable
+// signals and runtime errors never change after construction
+//@ frozen Signal RuntimeError SyntaxError
+
 //@ func NewExceptionSignal
+//@   requires val == nil || val.ptr != 0
 //@   modifies nothing
 //@   ensures result != nil && fresh(result) && result.SigType == SigTypeException && result.Extra == val
 
